@@ -118,7 +118,8 @@ func TestHistoryPrunerEnum(t *testing.T) {
 		}
 		floor, err := pruner.OldestRetainedBlock(ref)
 		if err != nil {
-			t.Fatal(err)
+			report("historypruner-migration:uninterrupted:nothing-retained", fmt.Sprintf("after the uninterrupted migration no block commitments are left: %v", err), only{Mode: "none"}, p.height()-9, err.Error())
+			continue
 		}
 		p.first = floor
 		refDump, _ := faultkv.Dump(ref)
